@@ -72,7 +72,7 @@ def job_compose(job):
                     out['not_comparable'] = out.get('not_comparable', 0) + 1
                     continue
                 ok = g[0] == 'value' and O.eq(fr.mv_to_ref(g[1]), fr.mv_to_ref(e[1]))
-                if not ok and len(out['failures']) < 15:
+                if not ok and len(out['failures']) < 400:
                     out['failures'].append({'config': cfg, 'op': name, 'a': showmv(ak, a.values()), 'b': showmv(bk, b.values()),
                                             'got': str(todict(g[1]) if g[0] == 'value' else g[1])[:300],
                                             'elementary': str(todict(e[1]) if e[0] == 'value' else e[1])[:300], 'reference': str(r)[:300]})
@@ -91,7 +91,7 @@ def job_compose(job):
                                                           'proj': (lambda: a @ b, lambda: (a | b) * ~b)}.items():
                         out['evaluations'] += 1
                         g, e = _safe(composite), _safe(elementary)
-                        if e[0] == 'value' and not (g[0] == 'value' and O.eq(fr.mv_to_ref(g[1]), fr.mv_to_ref(e[1]))) and len(out['failures']) < 15:
+                        if e[0] == 'value' and not (g[0] == 'value' and O.eq(fr.mv_to_ref(g[1]), fr.mv_to_ref(e[1]))) and len(out['failures']) < 400:
                             out['failures'].append({'config': cfg, 'op': name, 'what': 'composite operator on an operand whose coefficient was updated in place differs from the composition',
                                                     'a': showmv(ak, a.values()), 'b': showmv(bk, b.values()),
                                                     'got': str(todict(g[1]) if g[0] == 'value' else g[1])[:300], 'elementary': str(todict(e[1]))[:300]})
@@ -204,15 +204,15 @@ def job_inverse(job):
                 inv = g[1]
                 l, r = _safe(lambda: fr.mv_to_ref(a * inv)), _safe(lambda: fr.mv_to_ref(inv * a))
                 ok = l[0] == 'value' and r[0] == 'value' and _near(l[1], one, fr.d) and _near(r[1], one, fr.d)
-                if not ok and len(out['failures']) < 15:
+                if not ok and len(out['failures']) < 400:
                     out['failures'].append({'config': cfg, 'op': 'inv', 'a': showmv(ak, av), 'what': 'x*inv(x) or inv(x)*x is not 1',
                                             'x*inv': str(l[1])[:200], 'inv*x': str(r[1])[:200]})
             elif g[1] == 'ZeroDivisionError':
                 if fr.d <= cfg.get('det_dmax', 4) and not _singular(_left_matrix(fr, A)):
-                    if len(out['failures']) < 15:
+                    if len(out['failures']) < 400:
                         out['failures'].append({'config': cfg, 'op': 'inv', 'a': showmv(ak, av), 'what': 'ZeroDivisionError for an invertible element'})
             else:
-                if len(out['failures']) < 15:
+                if len(out['failures']) < 400:
                     out['failures'].append({'config': cfg, 'op': 'inv', 'a': showmv(ak, av), 'what': 'inv raised', 'error': g[1]})
             # division
             bk = rand_keys(rng, alg, 'sparse') or (0,)
@@ -226,7 +226,7 @@ def job_inverse(job):
                 same = x[0] == y[0] and (x[0] == 'raise' or _near(x[1], y[1], fr.d))
                 if x[0] == 'raise' and y[0] == 'raise':
                     same = True
-                if not same and len(out['failures']) < 15:
+                if not same and len(out['failures']) < 400:
                     out['failures'].append({'config': cfg, 'op': 'div', 'what': nm + ' violated', 'a': showmv(bk, bv), 'b': showmv(ak, av),
                                             'lhs': str(x)[:200], 'rhs': str(y)[:200]})
             # the same multivector object after its coefficients were changed in place (multivectors are mutable): inv() of the
@@ -243,7 +243,7 @@ def job_inverse(job):
                     if g2[0] == 'value':
                         l2, r2 = _safe(lambda: fr.mv_to_ref(a * g2[1])), _safe(lambda: fr.mv_to_ref(g2[1] * a))
                         ok2 = l2[0] == 'value' and r2[0] == 'value' and _near(l2[1], one, fr.d) and _near(r2[1], one, fr.d)
-                        if not ok2 and len(out['failures']) < 15:
+                        if not ok2 and len(out['failures']) < 400:
                             out['failures'].append({'config': cfg, 'op': 'inv', 'a': showmv(ak, list(a.values())), 'what': 'x*inv(x) is not 1 for a multivector whose coefficients were updated in place after an earlier inv()',
                                                     'earlier_values': [str(v) for v in av], 'x*inv': str(l2[1])[:200]})
             if len(out['samples']) < 3:
@@ -377,7 +377,7 @@ def job_symbolic(job):
                 if nres[0] == 'raise':
                     continue     # a pole of the numeric evaluation
                 if sres[0] == 'raise':
-                    if len(out['failures']) < 12:
+                    if len(out['failures']) < 400:
                         out['failures'].append({'config': cfg, 'op': name, 'what': 'symbolic evaluation raised where numeric succeeds', 'error': sres[1],
                                                 'a': showmv(ak, av), 'b': showmv(bk, bv)})
                     continue
@@ -416,7 +416,7 @@ def job_symbolic(job):
                         gotd = O.nz(gotd)
                         # rational constants of a symbolic multivector are printed as Python divisions (-2/3 -> float): compare to rounding
                         bad = set(gotd) != set(expd) or any(abs(float(gotd[k]) - float(expd[k])) > 1e-9 * max(1.0, abs(float(expd[k]))) for k in expd)
-                    if bad and len(out['failures']) < 12:
+                    if bad and len(out['failures']) < 400:
                         out['failures'].append({'config': cfg, 'op': name, 'what': f'symbolic then {wn} != numeric', 'a': showmv(ak, av), 'b': showmv(bk, bv),
                                                 'values': {str(k): str(v) for k, v in env.items()}, 'got': str(gotd)[:250], 'expected': str(expd)[:250]})
             if len(out['samples']) < 3:
@@ -448,7 +448,7 @@ def job_symbolic(job):
                             got = {'EXC': repr(e)[:80]}
                         got = {k: v for k, v in got.items() if not isinstance(v, complex) or abs(v) > 1e-12}
                         bad = set(got) != set(want) or any(abs(got[k] - want[k]) > 1e-9 * max(1.0, abs(want[k])) for k in want)
-                        if bad and len(out['failures']) < 12:
+                        if bad and len(out['failures']) < 400:
                             out['failures'].append({'config': cfg, 'op': fname, 'what': 'symbolic then subs != numeric (root of a square)', 'blade': alg.bin2canon[K],
                                                     'value': str(val), 'got': str(got)[:200], 'expected': str(want)[:200]})
     out['distinct'] = len(pats)
@@ -573,7 +573,7 @@ def job_relabel(job):
                     same = O.eq(fr.mv_to_ref(x[1]), frd.mv_to_ref(y[1]))
                 else:
                     same = x[0] == y[0]
-                if not same and len(out['failures']) < 20:
+                if not same and len(out['failures']) < 400:
                     out['failures'].append({'config': cfg, 'op': name, 'what': 'operator does not commute with the relabelling to the default basis',
                                             'pss_orientation': fr.o[fr.pssK], 'a': showmv(ak, av), 'b': showmv(bk, bv),
                                             'got': str(fr.mv_to_ref(x[1]) if x[0] == 'value' else x[1])[:200],
@@ -583,7 +583,7 @@ def job_relabel(job):
                 out['evaluations'] += 1
                 c1 = getattr(a, alg.bin2canon[K])
                 c2 = getattr(pa, dflt.bin2canon[inv_d[fr.pi[K]]]) * fr.o[K] * frd.o[inv_d[fr.pi[K]]]
-                if c1 != c2 and len(out['failures']) < 20:
+                if c1 != c2 and len(out['failures']) < 400:
                     out['failures'].append({'config': cfg, 'what': 'coefficient accessor does not commute with the relabelling', 'blade': alg.bin2canon[K]})
             if len(out['samples']) < 3:
                 out['samples'].append({'config': cfg, 'a': showmv(ak, av), 'pss_orientation': fr.o[fr.pssK]})
